@@ -71,8 +71,10 @@ def _run_task(i):
             if res['status'] == 'error' and 'infeasible path' in str(res.get('detail')):
                 # decisions of a re-executed path prefix did not line up: the code under test kept state from an earlier path of this
                 # process (never the case on the unchanged tree). Explore again with every path in its own process.
-                res = symx.explore(lambda ctx: ob.run(ctx, case), max_seconds=ob.budget_s, isolate=True).as_dict()
-                res['detail'] = (res.get('detail') or '') + ' [explored with per-path process isolation]'
+                res = symx.explore(lambda ctx: ob.run(ctx, case), max_seconds=min(ob.budget_s or 120, 120), isolate=True).as_dict()
+                res['detail'] = (res.get('detail') or '') + ' [explored with per-path process isolation, 120 s]'
+                if res['status'] == 'budget':
+                    res['status'] = 'error'
         else:
             res = ob.run(case)
     except BaseException as e:  # harness bug: never a verdict
@@ -149,6 +151,10 @@ def do_replay(path):
         try:
             rep, failures, notes, err = symx.replay(lambda ctx: ob.run(ctx, case), d['cex'])
         except Exception as e:
+            if symx.harness_object_error(e):
+                traceback.print_exc()
+                print('  HARNESS: a fake object of the harness lacks an attribute the code uses; not a verdict')
+                return 2
             rep, failures, notes, err = True, ['exception: ' + ''.join(traceback.format_exception_only(type(e), e)).strip()], [], None
             traceback.print_exc()
         for k, v in notes:
@@ -271,7 +277,7 @@ def main(argv):
                 # the witness does not reproduce in a fresh process: state kept by the code under test may have leaked from an earlier
                 # path of the exploration. Explore this case again with every path in its own process and replay what that finds.
                 from lib import symx as _sx
-                r2 = _sx.explore(lambda ctx: o.run(ctx, case), max_seconds=o.budget_s, isolate=True).as_dict()
+                r2 = _sx.explore(lambda ctx: o.run(ctx, case), max_seconds=min(o.budget_s or 300, 300), isolate=True).as_dict()
                 if r2['status'] == 'cex':
                     json.dump({'property': pid, 'obligation': o.name, 'tier': tier, 'case': _jsonable(case), 'cex': _jsonable(r2.get('cex')),
                                'failed': r2.get('failed'), 'detail': 'found with per-path process isolation'}, open(rp, 'w'), indent=1)
